@@ -16,8 +16,9 @@ from typing import Any, Dict, List, Optional, Tuple
 from .. import spec_tables as spec
 from ..core import AnalysisError, ClassInfo, Ctx, FuncInfo, body_without_docstring, dotted, norm, unparse, walk_no_nested
 from ..decide import PathEnumerator, paths_of, substitute
-from ..fold import Folder, Unfoldable
-from ..layout import NotLayout, bls_term, term_str
+from ..absint import Evaluator, Raised
+from ..fold import Abstract, Folder, Sym, Unfoldable
+from ..layout import NotLayout, TBls, bls_term, explore, mentions_only_min_max, show_term, term_str, under
 from ..regions import flatten_init, inline_properties, trivial_property_expr
 from .c05 import enum_hook
 
@@ -37,7 +38,7 @@ def rule_r1_prefix(ctx: Ctx) -> None:
     repo = ctx.repo
     ctx.rule("C02.R1", "implicit array length prefix: smallest of 8/16/32/64 bits able to hold the capacity, truncated unsigned", min_instances=2)
     c = ctx.cls(SER + "_array.VariableLengthArrayType")
-    stmts, chain = flatten_init(repo, c)
+    stmts, chain = flatten_init(repo, c, node_of=ctx.inl)
     paths = [p for p in PathEnumerator().run(stmts) if p.kind == "fall"]
     if not paths:
         raise AnalysisError("VariableLengthArrayType.__init__: no completing path")
@@ -80,6 +81,28 @@ def rule_r1_prefix(ctx: Ctx) -> None:
     ctx.sample({"rule": "C02.R1", "expr": norm(width_expr)[:200], "rows": {str(x): spec.smallest_standard_width(x) for x in (255, 256, 65535, 65536)}})
 
 
+class AbsSeq(Abstract):
+    """
+    a sequence of `n` abstract elements of which only the distinct representatives are enumerated: len() is exact, iteration
+    visits each representative once (sound for idempotent accumulations such as max over the elements)
+    """
+
+    def __init__(self, n: int, reps: List[Any]):
+        self.n = n
+        self.reps = list(reps)
+
+    def __len__(self) -> int:
+        return self.n
+
+    def __iter__(self) -> Any:
+        return iter(self.reps[: self.n] if self.n < len(self.reps) else self.reps)
+
+    def __getitem__(self, i: Any) -> Any:
+        if isinstance(i, int):
+            return self.reps[min(i, len(self.reps) - 1)]
+        raise Unfoldable("slice of an abstract sequence")
+
+
 def rule_r2_tag(ctx: Ctx) -> None:
     repo = ctx.repo
     ctx.rule("C02.R2", "union tag: smallest of 8/16/32/64 bits able to hold the largest variant index, truncated unsigned, computed over the variants", min_instances=2)
@@ -88,50 +111,65 @@ def rule_r2_tag(ctx: Ctx) -> None:
     if fn is None:
         raise AnalysisError("anchor UnionType._compute_tag_bit_length missing")
     param = fn.params[0]
-    rets = [p for p in paths_of(fn.node) if p.kind == "return"]
-    if len(rets) != 1:
-        raise AnalysisError("_compute_tag_bit_length: expected one return")
-    expr = rets[0].value
+    body = body_without_docstring(ctx.inl(fn))
     bad = []
     ns = sorted({2, 3, 4} | {v for j in range(1, 33) for v in (2**j - 1, 2**j, 2**j + 1)})
     for n in ns:
         for al in (1, 8):
-
-            def hook(e: ast.expr, f: Folder) -> Any:
-                if isinstance(e, ast.Call) and dotted(e.func) == "len" and norm(e.args[0]) == param:
-                    return n
-                if isinstance(e, ast.ListComp) and len(e.generators) == 1 and norm(e.generators[0].iter) == param and not e.generators[0].ifs:
-                    tgt = norm(e.generators[0].target)
-                    if norm(e.elt) == "%s.alignment_requirement" % tgt:
-                        return [al, 1]
-                    raise Unfoldable("comprehension over the variants: %s" % norm(e))
-                return NotImplemented
-
+            seq = AbsSeq(n, [Sym(alignment_requirement=al), Sym(alignment_requirement=1)])
             try:
-                w = Folder({}, repo, fn.module, u, hook).fold(expr)
-            except Unfoldable as ex:
-                raise AnalysisError("cannot fold the tag width: %s" % ex)
+                w = Evaluator({param: seq}, repo, fn.module, u).run(body)
+            except (Unfoldable, Raised) as ex:
+                raise AnalysisError("cannot evaluate the tag width over %d abstract variants: %s" % (n, ex))
             ctx.count()
             want = spec.smallest_standard_width(n - 1)
             if w != want:
                 bad.append({"variants": n, "alignment": al, "found": w, "expected": want})
     ctx.check(not bad, fn.short, "tag width", "tag width must be the smallest of 8/16/32/64 holding index n-1 (%d variant counts)" % len(ns), fn.where(), bad[:6])
-    # the stored tag type
-    init = u.methods["__init__"]
-    stores = [s for s in walk_no_nested(init.node) if isinstance(s, ast.Assign) and dotted(s.targets[0]) == "self._tag_field_type"]
+    # the stored tag type: a truncated unsigned integer whose width is the tag computation over the types of all variants
+    stmts, chain = flatten_init(repo, u, node_of=ctx.inl)
+    init = chain[0]
     acc = trivial_property_expr(repo, u, "tag_field_type")
-    good = len(stores) == 1 and acc is not None and norm(acc) == "self._tag_field_type"
+    if acc is None or dotted(acc) is None:
+        raise AnalysisError("UnionType.tag_field_type is not a field accessor")
+    vals = []
+    for p in PathEnumerator(opaque={"self.fields", "self._fields"}).run(stmts):
+        if p.kind == "fall":
+            v = p.env.get(dotted(acc))  # type: ignore
+            if v is None:
+                raise AnalysisError("UnionType.__init__ does not store %s on a completing path" % dotted(acc))
+            vals.append(v)
+    if not vals:
+        raise AnalysisError("UnionType.__init__: no completing path")
+    good = True
     detail = None
-    if good:
-        v = stores[0].value
+    for v in vals:
         k = repo.resolve_expr(init.module, v.func, u) if isinstance(v, ast.Call) else None
-        good = isinstance(v, ast.Call) and isinstance(k, ClassInfo) and k.name == "UnsignedIntegerType" and len(v.args) == 2
-        if good:
+        ok = isinstance(v, ast.Call) and isinstance(k, ClassInfo) and k.name == "UnsignedIntegerType" and len(v.args) == 2
+        if ok:
             a0 = v.args[0]
-            cm = Folder({}, repo, init.module, u, enum_hook(ctx, init.module, u)).fold(v.args[1])
-            good = cm == "CastMode.TRUNCATED" and isinstance(a0, ast.Call) and norm(a0.func) in ("self._compute_tag_bit_length", "UnionType._compute_tag_bit_length") and norm(a0.args[0]) in ("[x.data_type for x in self.fields]", "[f.data_type for f in self.fields]")
-            detail = norm(v)
+            try:
+                cm = Folder({}, repo, init.module, u, enum_hook(ctx, init.module, u)).fold(v.args[1])
+            except Unfoldable:
+                cm = None
+            # the width argument: the tag computation applied to the data types of all fields, in order
+            ok = cm == "CastMode.TRUNCATED" and isinstance(a0, ast.Call) and (dotted(a0.func) or "").endswith("_compute_tag_bit_length") and len(a0.args) == 1 and _is_types_of_fields(a0.args[0])
+        detail = norm(v)
+        good = good and ok
     ctx.check(good, init.short, "tag field type", "the tag is a truncated unsigned integer whose width is computed over the types of all variants", init.where(), detail)
+
+
+def _is_types_of_fields(e: ast.AST) -> bool:
+    """[f.data_type for f in self.fields] in any spelling: comprehension / generator / map(lambda) without a filter"""
+    if isinstance(e, ast.Call) and dotted(e.func) in ("list", "tuple") and len(e.args) == 1:
+        e = e.args[0]
+    if isinstance(e, (ast.ListComp, ast.GeneratorExp)) and len(e.generators) == 1 and not e.generators[0].ifs:
+        g = e.generators[0]
+        return norm(g.iter) in ("self.fields", "self._fields") and isinstance(g.target, ast.Name) and norm(e.elt) == "%s.data_type" % g.target.id
+    if isinstance(e, ast.Call) and dotted(e.func) == "map" and len(e.args) == 2 and isinstance(e.args[0], ast.Lambda):
+        lam = e.args[0]
+        return norm(e.args[1]) in ("self.fields", "self._fields") and len(lam.args.args) == 1 and norm(lam.body) == "%s.data_type" % lam.args.args[0].arg
+    return False
 
 
 def rule_r3_header(ctx: Ctx) -> None:
@@ -182,195 +220,266 @@ def rule_r4_alignment(ctx: Ctx) -> None:
         if "alignment_requirement" in sub.methods:
             ctx.fail(sub.short + ".alignment_requirement", "override", "an array subclass overrides the alignment", where=sub.module.relpath)
     comp = ctx.cls(SER + "_composite.CompositeType")
-    e = trivial_property_expr(repo, comp, "alignment_requirement")
-    if e is None:
-        raise AnalysisError("CompositeType.alignment_requirement is not a single expression")
+    afn = repo.lookup_method(comp, "alignment_requirement")
+    if afn is None or not afn.is_property:
+        raise AnalysisError("CompositeType.alignment_requirement is not a property")
+    body = body_without_docstring(ctx.inl(afn))
+    e = afn.node
     bad = []
     for fields in ([], [1], [8], [1, 1], [1, 8], [8, 8, 1]):
-
-        def hook(x: ast.expr, f: Folder) -> Any:
-            if isinstance(x, ast.ListComp) and len(x.generators) == 1 and norm(x.generators[0].iter) in ("self.fields", "self.attributes") and not x.generators[0].ifs:
-                tgt = norm(x.generators[0].target)
-                if norm(x.elt) == "%s.data_type.alignment_requirement" % tgt:
-                    return list(fields)
-                raise Unfoldable(norm(x))
-            if isinstance(x, ast.GeneratorExp):
-                raise Unfoldable(norm(x))
-            return NotImplemented
-
+        fl = [Sym(data_type=Sym(alignment_requirement=a)) for a in fields]
+        me = Sym(fields=fl, _fields=fl, attributes=fl, _attributes=fl)
         try:
-            v = Folder({}, repo, comp.module, comp, hook).fold(e)
-        except Unfoldable as ex:
-            raise AnalysisError("cannot fold CompositeType.alignment_requirement: %s" % ex)
+            v = Evaluator({"self": me}, repo, comp.module, comp).run(body)
+        except (Unfoldable, Raised) as ex:
+            raise AnalysisError("cannot evaluate CompositeType.alignment_requirement over abstract fields: %s" % ex)
         ctx.count()
         if v != max([8] + fields):
             bad.append({"field_alignments": fields, "found": v})
-    ctx.check(not bad, comp.short + ".alignment_requirement", norm(e), "a composite is aligned to max(8, alignments of its fields)", comp.module.relpath, bad)
+    ctx.check(not bad, comp.short + ".alignment_requirement", norm(e)[:120].replace("\n", " "), "a composite is aligned to max(8, alignments of its fields)", comp.module.relpath, bad)
     for sub in repo.subclasses(comp, strict=True):
         if "alignment_requirement" in sub.methods:
             ctx.fail(sub.short + ".alignment_requirement", "override", "a composite subclass overrides the alignment", where=sub.module.relpath)
 
 
 # ---------------------------------------------------------------------------------------------------- R5
-SPEC_BLS = {
-    "_array.FixedLengthArrayType": "self.element_type.bit_length_set.repeat(self.capacity)",
-    "_array.VariableLengthArrayType": "self.length_field_type.bit_length + self.element_type.bit_length_set.repeat_range(self.capacity)",
-    "_composite.StructureType": "self.aggregate_bit_length_sets([f.data_type for f in self.fields]).pad_to_alignment(self.alignment_requirement)",
-    "_composite.UnionType": "self.aggregate_bit_length_sets([f.data_type for f in self.fields]).pad_to_alignment(self.alignment_requirement)",
-    "_composite.DelimitedType": "self.delimiter_header_type.bit_length + BitLengthSet(self.alignment_requirement).repeat_range(self.extent // self.alignment_requirement)",
-    "_primitive.PrimitiveType": "BitLengthSet(self.bit_length)",
-    "_void.VoidType": "BitLengthSet(self.bit_length)",
-}
+def _std_width(n: int) -> int:
+    return spec.smallest_standard_width(n)
 
 
-def _canon_term(repo: Any, cls: ClassInfo, e: ast.AST) -> Any:
-    e2 = inline_properties(repo, cls, e)
-    return bls_term(e2)
+def _layout_hook(ctx: Ctx, mod: Any, cls: Optional[ClassInfo]) -> Any:
+    """what the abstract evaluation needs to know about the model: BitLengthSet builds terms; integer-type constructors are
+    records of their width; aggregate_bit_length_sets is evaluated from its own definition"""
+    repo = ctx.repo
+    eh = enum_hook(ctx, mod, cls)
+
+    def hook(e: ast.expr, f: Folder) -> Any:
+        r = eh(e, f)
+        if r is not NotImplemented:
+            return r
+        if isinstance(e, ast.Call):
+            name = dotted(e.func) or ""
+            last = name.split(".")[-1]
+            if last == "BitLengthSet" and len(e.args) <= 1 and not e.keywords:
+                return TBls.of(f.fold(e.args[0]) if e.args else 0)
+            if name.endswith("BitLengthSet.unite") and len(e.args) == 1:
+                return TBls.unite(list(f.fold(e.args[0])))
+            if name.endswith("BitLengthSet.concatenate") and len(e.args) == 1:
+                return TBls.concatenate(list(f.fold(e.args[0])))
+            if last in ("UnsignedIntegerType", "SignedIntegerType") and len(e.args) == 2:
+                return Sym(bit_length=f.fold(e.args[0]), cast_mode=f.fold(e.args[1]), alignment_requirement=1, kind=last)
+            if last == "aggregate_bit_length_sets" and len(e.args) == 1 and isinstance(e.func, ast.Attribute):
+                owner = None
+                b = e.func.value
+                if isinstance(b, ast.Name) and b.id in ("self", "cls") and f.cls is not None:
+                    owner = f.cls
+                else:
+                    k = repo.resolve_expr(f.mod, b, f.cls) if f.mod is not None and isinstance(b, (ast.Name, ast.Attribute)) else None
+                    owner = k if isinstance(k, ClassInfo) else None
+                if owner is None:
+                    raise Unfoldable("cannot tell whose aggregation %s is" % norm(e))
+                fn = repo.lookup_method(owner, "aggregate_bit_length_sets")
+                if fn is None:
+                    raise Unfoldable("no aggregation in %s" % owner.name)
+                return aggregate_term(ctx, fn, list(f.fold(e.args[0])))
+        return NotImplemented
+
+    return hook
 
 
-def definition_term(ctx: Ctx, cls: ClassInfo) -> Tuple[Any, FuncInfo, ast.AST]:
-    """The term of cls.bit_length_set: the property's expression, or the single store to the attribute it returns."""
+def aggregate_term(ctx: Ctx, fn: FuncInfo, field_types: List[Any]) -> TBls:
+    body = body_without_docstring(ctx.inl(fn))
+    ev = Evaluator({fn.params[0]: list(field_types)}, ctx.repo, fn.module, fn.cls, _layout_hook(ctx, fn.module, fn.cls))
+    v = ev.run(body)
+    if not isinstance(v, TBls):
+        raise Unfoldable("%s did not produce a bit length set" % fn.short)
+    return v
+
+
+def _field_type_grids() -> List[List[Sym]]:
+    out = []
+    for als in ([], [1], [8], [1, 1], [1, 8], [8, 1], [8, 8], [1, 8, 1], [8, 1, 8]):
+        out.append([Sym(bit_length_set=TBls.var("T%d" % i, a), alignment_requirement=a, name="T%d" % i) for i, a in enumerate(als)])
+    return out
+
+
+def spec_structure(ts: List[Sym]) -> TBls:
+    acc = TBls.of(0)
+    for t in ts:
+        acc = acc.pad_to_alignment(t.alignment_requirement) + t.bit_length_set
+    return acc
+
+
+def spec_union(ts: List[Sym]) -> TBls:
+    if not ts:
+        return TBls.of(0)
+    if len(ts) == 1:
+        return ts[0].bit_length_set
+    tag = max([_std_width(len(ts) - 1)] + [t.alignment_requirement for t in ts])
+    return tag + TBls.unite([t.bit_length_set for t in ts])
+
+
+def class_layout_exprs(ctx: Ctx, cls: ClassInfo) -> Tuple[List[ast.AST], FuncInfo]:
+    """the expression(s) that define cls.bit_length_set, constructor temporaries substituted, private helpers expanded"""
     repo = ctx.repo
     prop = repo.lookup_method(cls, "bit_length_set")
     if prop is None:
         raise AnalysisError("%s.bit_length_set missing" % cls.qualname)
-    e = trivial_property_expr(repo, cls, "bit_length_set")
-    if e is None:
+    ps = [p for p in paths_of(ctx.inl(prop)) if p.kind == "return"]
+    if len(ps) != 1:
         raise AnalysisError("%s.bit_length_set is not a single expression" % cls.qualname)
+    e = ps[0].value
     d = dotted(e)
     if d is not None and d.startswith("self._"):
-        init = cls.methods.get("__init__")
-        if init is None:
+        stmts, chain = flatten_init(repo, cls, node_of=ctx.inl)
+        if not chain:
             raise AnalysisError("%s stores its layout but has no constructor" % cls.qualname)
-        stores = [s for s in walk_no_nested(init.node) if isinstance(s, ast.Assign) and any(dotted(t) == d for t in s.targets)]
-        others = [f for f in cls.methods.values() if f is not init and any(isinstance(s, (ast.Assign, ast.AugAssign)) and any(dotted(t) == d for t in (s.targets if isinstance(s, ast.Assign) else [s.target])) for s in ast.walk(f.node))]
-        if len(stores) != 1 or others:
-            raise AnalysisError("%s: expected exactly one store to %s (found %d, other writers %s)" % (cls.qualname, d, len(stores), [o.name for o in others]))
-        return _canon_term(repo, cls, stores[0].value), init, stores[0]
-    return _canon_term(repo, cls, e), prop, e
+        others = [f for f in cls.methods.values() if f.name != "__init__" and any(isinstance(s_, (ast.Assign, ast.AugAssign, ast.AnnAssign)) and any(dotted(t) == d for t in (s_.targets if isinstance(s_, ast.Assign) else [s_.target])) for s_ in ast.walk(f.node))]
+        if others:
+            raise AnalysisError("%s: %s is written outside the constructor (%s)" % (cls.qualname, d, [o.name for o in others]))
+        vals = [p.env.get(d) for p in PathEnumerator().run(stmts) if p.kind == "fall"]
+        if not vals or any(v is None for v in vals):
+            raise AnalysisError("%s: the constructor does not store %s on every completing path" % (cls.qualname, d))
+        uniq = {norm(v): v for v in vals}
+        return list(uniq.values()), chain[0]
+    return [e], prop
+
+
+def eval_layout(ctx: Ctx, cls: ClassInfo, exprs: List[ast.AST], fn: FuncInfo, env: Dict[str, Any]) -> List[TBls]:
+    """the layout definition(s) of `cls` evaluated over abstract operands"""
+    out = []
+    for e in exprs:
+        try:
+            v = Folder(dict(env), ctx.repo, fn.module, cls, _layout_hook(ctx, fn.module, cls)).fold(e)
+        except Unfoldable as ex:
+            raise AnalysisError("%s.bit_length_set: cannot evaluate %s over abstract operands: %s" % (cls.short, norm(e)[:80], ex))
+        if isinstance(v, int) and not isinstance(v, bool):
+            v = TBls.of(v)
+        if not isinstance(v, TBls):
+            raise AnalysisError("%s.bit_length_set: %s is not a bit length set" % (cls.short, norm(e)[:80]))
+        out.append(v)
+    return out
 
 
 def rule_r5_terms(ctx: Ctx) -> None:
     repo = ctx.repo
-    ctx.rule("C02.R5", "layout terms of every bit_length_set definition (primitive, void, fixed/variable array, structure, union, delimited) and of the two aggregation helpers equal the Specification's", min_instances=9)
-    for short, spec_expr in SPEC_BLS.items():
+    ctx.rule("C02.R5", "layout terms: every bit_length_set definition (primitive, void, fixed/variable array, structure, union, delimited) and the two aggregation functions, evaluated over abstract operands, equal the Specification's terms", min_instances=9)
+
+    def evaluate(cls: ClassInfo, exprs: List[ast.AST], fn: FuncInfo, env: Dict[str, Any]) -> List[TBls]:
+        return eval_layout(ctx, cls, exprs, fn, env)
+
+    def compare(cls: ClassInfo, fn: FuncInfo, exprs: List[ast.AST], cases: List[Tuple[Dict[str, Any], Any, str]]) -> None:
+        """cases: (environment, specification as a thunk, label)"""
+        bad = []
+        for env, want_f, label in cases:
+            try:
+                runs = explore(lambda: evaluate(cls, exprs, fn, env))
+            except NotLayout as ex:
+                raise AnalysisError("%s.bit_length_set: %s" % (cls.short, ex))
+            for assumptions, gots in runs:
+                want = under(assumptions, want_f)
+                for got in gots:
+                    ctx.count()
+                    if got != want:
+                        kinds = [e for e, _ in assumptions]
+                        if kinds and not all(mentions_only_min_max(e) or e[0] == "aligned" for e in kinds):
+                            raise AnalysisError("%s: the layout is conditional on %s, which this analysis cannot relate to alignment" % (cls.short, [show_term(e) for e in kinds]))
+                        bad.append({"operands": label, "assuming": ["%s is %s" % (show_term(e), v) for e, v in assumptions], "found": repr(got), "expected": repr(want)})
+        ctx.check(not bad, cls.short + ".bit_length_set", " | ".join(norm(e)[:90] for e in exprs), "the layout must be the Specification's for every combination of abstract operands", fn.where(), bad[:3])
+
+    E = lambda a: Sym(bit_length_set=TBls.var("E", a), alignment_requirement=a)  # noqa: E731
+    # primitives and void
+    for short in ("_primitive.PrimitiveType", "_void.VoidType"):
         c = ctx.cls(SER + short)
-        try:
-            got, fn, node = definition_term(ctx, c)
-            want = _canon_term(repo, c, ast.parse(spec_expr, mode="eval").body)
-        except NotLayout as ex:
-            ctx.fail(c.short + ".bit_length_set", "layout term", "the layout definition is not an expression of the bit-length-set algebra: %s" % ex, where=c.module.relpath)
-            continue
-        ctx.check(got == want, c.short + ".bit_length_set", term_str(got), "layout must be " + term_str(want), fn.where(node), {"expected": term_str(want)})
-        ctx.count()
+        exprs, fn = class_layout_exprs(ctx, c)
+        compare(c, fn, exprs, [({"self": Sym(bit_length=w, _bit_length=w), "bit_length": w}, (lambda w=w: TBls.of(w)), "width %d" % w) for w in (1, 7, 8, 33, 64)])
+    # arrays
+    fa = ctx.cls(SER + "_array.FixedLengthArrayType")
+    exprs, fn = class_layout_exprs(ctx, fa)
+    cases = []
+    for a in (1, 8):
+        for cap in (1, 2, 7, 255, 256, 65536):
+            et = E(a)
+            cases.append(({"self": Sym(element_type=et, capacity=cap, alignment_requirement=a), "element_type": et, "capacity": cap}, (lambda et=et, cap=cap: et.bit_length_set.repeat(cap)), "capacity %d, element alignment %d" % (cap, a)))
+    compare(fa, fn, exprs, cases)
+    va = ctx.cls(SER + "_array.VariableLengthArrayType")
+    exprs, fn = class_layout_exprs(ctx, va)
+    cases = []
+    for a in (1, 8):
+        for cap in (1, 2, 255, 256, 65535, 65536, 2**32 - 1, 2**32):
+            et = E(a)
+            w = _std_width(cap)
+            cases.append(({"self": Sym(element_type=et, capacity=cap, alignment_requirement=a, length_field_type=Sym(bit_length=w)), "element_type": et, "capacity": cap}, (lambda et=et, cap=cap, w=w: w + et.bit_length_set.repeat_range(cap)), "capacity %d, element alignment %d" % (cap, a)))
+    compare(va, fn, exprs, cases)
+    # aggregation functions
+    st = ctx.cls(SER + "_composite.StructureType")
+    un = ctx.cls(SER + "_composite.UnionType")
+    for c, specf, what in ((st, spec_structure, "structure layout: each field is preceded by padding to its own alignment and followed by its own length set, in order"), (un, spec_union, "union layout: tag followed by the union of the variants' length sets (no tag for fewer than two variants)")):
+        fn = c.methods.get("aggregate_bit_length_sets")
+        if fn is None:
+            raise AnalysisError("anchor %s.aggregate_bit_length_sets missing" % c.name)
+        bad = []
+        for ts in _field_type_grids():
+            try:
+                runs = explore(lambda: aggregate_term(ctx, fn, ts))
+            except (Unfoldable, Raised, NotLayout) as ex:
+                raise AnalysisError("%s: cannot evaluate over %d abstract fields: %s" % (fn.short, len(ts), ex))
+            for assumptions, got in runs:
+                want = under(assumptions, lambda: specf(ts))
+                ctx.count()
+                if got != want:
+                    kinds = [e for e, _ in assumptions]
+                    if kinds and not all(mentions_only_min_max(e) or e[0] == "aligned" for e in kinds):
+                        raise AnalysisError("%s: the layout is conditional on %s, which this analysis cannot relate to alignment" % (fn.short, [show_term(e) for e in kinds]))
+                    bad.append({"field alignments": [t.alignment_requirement for t in ts], "assuming": ["%s is %s" % (show_term(e), v) for e, v in assumptions], "found": repr(got), "expected": repr(want), "note": "a condition over the minimum and maximum of a set does not determine whether all its elements are aligned" if any(mentions_only_min_max(e) for e in kinds) else ""})
+        ctx.check(not bad, fn.short, "%s aggregation over 0..3 abstract fields" % c.name, what, fn.where(), bad[:3])
+    # composites: aggregation of the data types of the fields, padded to the composite's alignment
+    for c, specf in ((st, spec_structure), (un, spec_union)):
+        exprs, fn = class_layout_exprs(ctx, c)
+        cases = []
+        for ts in _field_type_grids():
+            if c is un and len(ts) < 2:
+                continue
+            fields = [Sym(data_type=t, name="f%d" % i) for i, t in enumerate(ts)]
+            al = max([8] + [t.alignment_requirement for t in ts])
+            cases.append(({"self": Sym(fields=fields, alignment_requirement=al)}, (lambda ts=ts, al=al, specf=specf: specf(ts).pad_to_alignment(al)), "field alignments %s" % [t.alignment_requirement for t in ts]))
+        compare(c, fn, exprs, cases)
+    # delimited
+    d = ctx.cls(SER + "_composite.DelimitedType")
+    exprs, fn = class_layout_exprs(ctx, d)
+    cases = []
+    for ext in (0, 8, 64, 72, 2040):
+        inner = Sym(alignment_requirement=8, extent=ext, bit_length_set=TBls.var("INNER"))
+        cases.append(({"self": Sym(alignment_requirement=8, extent=ext, inner_type=inner, delimiter_header_type=Sym(bit_length=spec.DELIMITER_HEADER_BITS)), "inner": inner, "extent": ext}, (lambda ext=ext: spec.DELIMITER_HEADER_BITS + TBls.of(8).repeat_range(ext // 8)), "extent %d" % ext))
+    compare(d, fn, exprs, cases)
     # subclasses that would silently change a layout
     for base in ("_primitive.PrimitiveType", "_array.ArrayType"):
         b = ctx.cls(SER + base)
         for sub in repo.subclasses(b, strict=True):
             if "bit_length_set" in sub.methods and sub.name not in ("FixedLengthArrayType", "VariableLengthArrayType"):
                 ctx.fail(sub.short + ".bit_length_set", "override", "unexpected layout override", where=sub.module.relpath)
-    ctx.sample({"rule": "C02.R5", "VariableLengthArrayType": SPEC_BLS["_array.VariableLengthArrayType"]})
-
-    # structure aggregation: fold over the fields with per-field padding
-    st = ctx.cls(SER + "_composite.StructureType")
-    fn = st.methods.get("aggregate_bit_length_sets")
-    if fn is None:
-        raise AnalysisError("anchor StructureType.aggregate_bit_length_sets missing")
-    ft = fn.params[0]
-    body = body_without_docstring(fn.node)
-    acc: Optional[str] = None
-    init_t = loop = step_t = ret = None
-    try:
-        for s in body:
-            if isinstance(s, ast.Assign) and isinstance(s.targets[0], ast.Name) and acc is None:
-                acc = s.targets[0].id
-                init_t = bls_term(s.value)
-            elif isinstance(s, ast.For) and acc is not None and len(s.body) == 1 and isinstance(s.body[0], ast.Assign) and norm(s.body[0].targets[0]) == acc and not s.orelse:
-                loop = (norm(s.target), norm(s.iter))
-                step_t = bls_term(s.body[0].value, lambda n: n == acc)
-            elif isinstance(s, ast.Return):
-                ret = norm(s.value)
-            elif isinstance(s, (ast.Assert, ast.Expr)):
-                continue
-            else:
-                raise NotLayout("statement %s" % norm(s))
-    except NotLayout as ex:
-        ctx.fail(fn.short, "structure aggregation", "not a recognisable fold over the fields: %s" % ex, where=fn.where())
-        loop = None
-    if loop is not None and acc is not None:
-        t = loop[0]
-        want_step = ("cat", ("pad", ("var", acc), "%s.alignment_requirement" % t), ("bls", t))
-        form1 = init_t == ("ite", "len(%s) > 0" % ft, ("bls", "%s[0]" % ft), ("leaf", "0")) and loop[1] == "%s[1:]" % ft
-        form2 = init_t == ("leaf", "0") and loop[1] == ft
-        good = (form1 or form2) and step_t == want_step and ret == acc
-        ctx.check(good, fn.short, "init=%s; for %s in %s: %s" % (term_str(init_t), loop[0], loop[1], term_str(step_t)), "structure layout: each field is preceded by padding to its own alignment and followed by its own length set, in order", fn.where(), {"expected_step": term_str(want_step)})
-    elif loop is None and acc is not None:
-        ctx.fail(fn.short, "structure aggregation", "no loop over the fields found", where=fn.where())
-
-    # union aggregation
-    un = ctx.cls(SER + "_composite.UnionType")
-    fn = un.methods.get("aggregate_bit_length_sets")
-    if fn is None:
-        raise AnalysisError("anchor UnionType.aggregate_bit_length_sets missing")
-    ft = fn.params[0]
-    paths = paths_of(fn.node)
-    bad = []
-    for n in (0, 1, 2, 3, 300):
-
-        def hook(e: ast.expr, f: Folder) -> Any:
-            if isinstance(e, ast.Call) and dotted(e.func) == "len":
-                a = e.args[0]
-                if norm(a) == ft:
-                    return n
-                if isinstance(a, ast.ListComp) and len(a.generators) == 1 and norm(a.generators[0].iter) == ft and not a.generators[0].ifs:
-                    return n
-                raise Unfoldable(norm(e))
-            return NotImplemented
-
-        taken = []
-        for p in paths:
-            okp = True
-            for c, pol in p.conds:
-                if isinstance(c, tuple):
-                    if c[0] == "assert":
-                        continue
-                    raise AnalysisError("UnionType.aggregate_bit_length_sets: unexpected marker %s" % c[0])
-                try:
-                    v = bool(Folder({}, repo, fn.module, un, hook).fold(c))
-                except Unfoldable as ex:
-                    raise AnalysisError("UnionType.aggregate_bit_length_sets: cannot fold %s: %s" % (norm(c), ex))
-                if v != pol:
-                    okp = False
-                    break
-            if okp:
-                taken.append(p)
-        ctx.count()
-        if len(taken) != 1 or taken[0].kind != "return":
-            raise AnalysisError("UnionType.aggregate_bit_length_sets: %d feasible paths for n=%d" % (len(taken), n))
-        listcomp = "[x.bit_length_set for x in %s]" % ft
-        try:
-            got = bls_term(taken[0].value, lambda nm: nm in (listcomp + "[]",))
-        except NotLayout as ex:
-            bad.append({"n": n, "not_layout": str(ex)})
-            continue
-        if n == 0:
-            want: Any = ("leaf", "0")
-        elif n == 1:
-            want = ("elem", listcomp, "0")
-        else:
-            want = ("cat", ("leaf", "UnionType._compute_tag_bit_length(%s)" % ft), ("uni", listcomp))
-        if got != want and not (n >= 2 and got == ("cat", ("leaf", "%s._compute_tag_bit_length(%s)" % ("UnionType", ft)), ("uni", listcomp))):
-            bad.append({"n": n, "found": term_str(got), "expected": term_str(want)})
-    ctx.check(not bad, fn.short, "union aggregation", "union layout: tag followed by the union of the variants' length sets (no tag for fewer than two variants)", fn.where(), bad)
+    ctx.sample({"rule": "C02.R5", "structure over [T0(1), T1(8)]": repr(spec_structure(_field_type_grids()[4])), "union over [T0, T1]": repr(spec_union(_field_type_grids()[4]))})
 
     # stored parameters feed the terms: element type, capacity, extent
-    for short, stores in (("_array.ArrayType", {"self._element_type": "element_type", "self._capacity": "int(capacity)"}), ("_composite.DelimitedType", {"self._extent": "int(extent)", "self._inner": "inner"})):
+    for short, stores in (("_array.ArrayType", {"element_type": 1, "capacity": 2}), ("_composite.DelimitedType", {"extent": 2, "inner_type": 1})):
         c = ctx.cls(SER + short)
-        init = c.methods["__init__"]
-        for attr, want_src in stores.items():
-            ss = [s for s in walk_no_nested(init.node) if isinstance(s, ast.Assign) and any(dotted(t) == attr for t in s.targets)]
-            good = len(ss) == 1 and norm(ss[0].value) in (want_src, want_src.replace("int(", "").rstrip(")"))
-            ctx.check(good, init.short, "%s <- %s" % (attr, norm(ss[0].value) if ss else "?"), "constructor parameter stored unchanged", init.where(), nontrivial=False)
+        stmts, chain = flatten_init(repo, c, node_of=ctx.inl)
+        init = chain[0]
+        falls = [p for p in PathEnumerator().run(stmts) if p.kind == "fall"]
+        for prop_name, pidx in stores.items():
+            acc = trivial_property_expr(repo, c, prop_name)
+            dd = dotted(acc) if acc is not None else None
+            good = dd is not None and bool(falls)
+            shown = "?"
+            if good:
+                for p in falls:
+                    v = p.env.get(dd)
+                    shown = norm(v) if v is not None else "?"
+                    # the parameter itself, possibly through int()
+                    if isinstance(v, ast.Call) and dotted(v.func) == "int" and len(v.args) == 1:
+                        v = v.args[0]
+                    good = good and isinstance(v, ast.Name) and v.id == init.params[pidx]
+            ctx.check(good, init.short, "%s <- %s" % (prop_name, shown), "constructor parameter stored unchanged", init.where(), nontrivial=False)
 
 
 def rule_r6_extent(ctx: Ctx) -> None:
